@@ -811,7 +811,11 @@ func vC15Steps(rr dns.RR) (string, bool) {
 			case *dns.EDNS0_LOCAL:
 				data = e.Data
 			default:
-				return "", false
+				d, ok := vC15OptionOctets(o)
+				if !ok {
+					return "", false
+				}
+				data = d
 			}
 			c, l := o.Option(), len(data)
 			parts = append(parts, b([]byte{byte(c >> 8), byte(c), byte(l >> 8), byte(l)}), b(data))
@@ -923,6 +927,16 @@ func vC15ConcreteMore(r *rand.Rand, h dns.RR_Header, pick func() string) dns.RR 
 // vC15ConcreteOptions: EDNS options whose wire form is their field octets.
 func vC15ConcreteOptions(r *rand.Rand) []dns.EDNS0 {
 	var out []dns.EDNS0
+	if r.Intn(2) == 0 {
+		// every option kind the library defines, from the generator of the differential cases, as
+		// far as the value drawn is expressible (the driver's own encoders below)
+		for try := 0; try < 20; try++ {
+			opts := vc15gen.VC15Options(r, 1+r.Intn(3))
+			if _, ok := vC15Steps(&dns.OPT{Hdr: dns.RR_Header{Name: ".", Rrtype: dns.TypeOPT}, Option: opts}); ok {
+				return opts
+			}
+		}
+	}
 	for i := r.Intn(4); i > 0; i-- {
 		d := make([]byte, r.Intn(20))
 		r.Read(d)
@@ -986,7 +1000,7 @@ func vC15ConcreteSweep(tr *vC15Trace, r *rand.Rand) {
 
 // vC15ConcreteCase builds a message from records the concrete model can decompose, packs
 // it through TryPack on a dirty pool and through the library, and records all bytes.
-func vC15ConcreteCase(tr *vC15Trace, r *rand.Rand) {
+func vC15ConcreteMsg(r *rand.Rand) *dns.Msg {
 	m := new(dns.Msg)
 	vc15gen.VC15Header(r, m)
 	if m.Rcode < 0 || m.Rcode > 4095 {
@@ -1103,6 +1117,11 @@ func vC15ConcreteCase(tr *vC15Trace, r *rand.Rand) {
 	if r.Intn(25) == 0 && len(m.Answer) > 0 {
 		m.Answer[0].Header().Name = "notfqdn.example" // the library errors; both decline
 	}
+	return m
+}
+
+func vC15ConcreteCase(tr *vC15Trace, r *rand.Rand) {
+	m := vC15ConcreteMsg(r)
 
 	ref := vc15gen.VC15DeepCopy(m)
 	want, werr, wpanic := vc15gen.VC15LibPack(ref)
@@ -1158,7 +1177,7 @@ func vC15ConcreteCase(tr *vC15Trace, r *rand.Rand) {
 		"coq": fmt.Sprintf("CaseConcrete %s %s [%s] %s %s %s %s %s %s %d", vc15gen.VC15CoqHeader(m), vC15Bool(m.Compress), strings.Join(qs, ";"),
 			secA, secN, secE, vC15Bool(handled), vC15Bool(werr == nil), bytesCoq, ulen),
 		"k":          fmt.Sprintf("concrete/handled=%v/lib=%v", handled, werr == nil),
-		"desc":       map[string]any{"rcode": m.Rcode, "compress": m.Compress, "sections": []int{len(m.Question), na, nn, len(m.Extra)}, "len": len(want), "liberr": vC15ErrStr(werr), "types": vC15Types(recs)},
+		"desc":       map[string]any{"rcode": m.Rcode, "compress": m.Compress, "sections": []int{len(m.Question), na, nn, len(m.Extra)}, "len": len(want), "liberr": vC15ErrStr(werr), "types": vC15Types(recs), "opts": vC15OptKinds(recs)},
 		"nontrivial": handled && len(recs) >= 2,
 	}
 	if len(fails) > 0 {
@@ -1442,6 +1461,7 @@ func TestVerifC15Wire(t *testing.T) {
 		vC15ConcreteCase(tr, r)
 	}
 	vC15ConcreteSweep(tr, r)
+	vC15HistoryCases(tr, r, 10+n/60)
 	vC15PlanPremise(tr, r, 2+n/500)
 	runtime.GOMAXPROCS(prev)
 	if runtime.GOMAXPROCS(0) < 4 {
@@ -1450,4 +1470,16 @@ func TestVerifC15Wire(t *testing.T) {
 	for c := 0; c < 3+n/400; c++ {
 		vC15Stress(tr, r, 400)
 	}
+}
+
+func vC15OptKinds(recs []dns.RR) string {
+	var out []string
+	for _, rr := range recs {
+		if o, ok := rr.(*dns.OPT); ok {
+			for _, e := range o.Option {
+				out = append(out, strings.TrimPrefix(reflect.TypeOf(e).String(), "*dns.EDNS0_"))
+			}
+		}
+	}
+	return strings.Join(out, ",")
 }
